@@ -32,7 +32,7 @@ def obligations(tier: str) -> list[Ob]:
             bounds={"declaration orders": "6 of 120 (quick) incl. allOf parent declared after child"},
         ),
     ]
-    sk = skeleton_obs("C15", "model", ["rt_", "tri_"], tier, names=["allof"], label="allof_models")
+    sk = skeleton_obs("C15", "model", ["rt_", "tri_", "reqd_"], tier, names=["allof"], label="allof_models")
     for o in sk:
         o.params["replay_func"] = "vlib.props.C15:replay"
     return obs + sk
